@@ -6,6 +6,17 @@
 //!            PANIC
 //!   lz4enc  <hex inpath> <hex outpath> <block size 4..7> <linked 0|1> <content checksum 0|1>
 //!       out: OK <compressed size>        (frame written with lz4_flex::frame::FrameEncoder)
+//! WP-J (container glue):
+//!   open    <hex path> <fta> <blocksz> <i,i,...>
+//!       out: OK <filesz()> <blockoffset_last()> <count_blocks(filesz, blocksz)> <mtime()> <fs mtime> <count_blocks_processed> <results as above>
+//!            mtime = <secs>.<nanos> since the epoch, "-<secs>.<nanos>" before it, or MPANIC
+//!            NEWERR <message> | PANIC
+//!   tarls   <hex path> [0]  the tar crate's own entry list (entries_with_seek; with 0: entries()), the oracle of the model:
+//!       out: OK <k>:<type byte>:<entry.size()>:<header().size()|E>:<header().mtime()|E>:<hex path lossy|E>:<raw_file_position>:<hex data>:<hex path_bytes()> ... | <k>:ERR
+//!   pptar   <hex path>      process_path_tar(path, true, Normal)
+//!       out: OK L:<hex fullpath> | E:<hex fullpath> | X ...
+//!   ntf     <hex path> <fta> <j|e>     decompress_to_ntf(path, Journal|Evtx{fta})
+//!       out: OK <file_sz> <mtime_opt: secs.nanos | NONE | MPANIC> <hex content> | OKNONE | ERR <message>
 use s4lib::common::{FileType, FileTypeArchive, FileTypeTextEncoding, ResultS3};
 use s4lib::readers::blockreader::{BlockOffset, BlockReader, BlockSz};
 use s4verif::*;
@@ -46,6 +57,122 @@ fn blocks(f: &[&str]) -> String {
     out
 }
 
+fn st_fmt(t: std::time::SystemTime) -> String {
+    match t.duration_since(std::time::UNIX_EPOCH) {
+        Ok(d) => format!("{}.{}", d.as_secs(), d.subsec_nanos()),
+        Err(e) => format!("-{}.{}", e.duration().as_secs(), e.duration().subsec_nanos()),
+    }
+}
+
+fn open(f: &[&str]) -> String {
+    let path = String::from_utf8_lossy(&unhex(f[1])).to_string();
+    let ft = FileType::Text { archival_type: fta(f[2]), encoding_type: FileTypeTextEncoding::Utf8Ascii };
+    let bs: BlockSz = f[3].parse().unwrap();
+    let idx: Vec<BlockOffset> = f[4].split(',').filter(|s| !s.is_empty()).map(|s| s.parse().unwrap()).collect();
+    let mut br = match BlockReader::new(path, ft, bs) {
+        Ok(b) => b,
+        Err(e) => return format!("NEWERR {}", e.to_string().replace('\n', " ").replace('\t', " ")),
+    };
+    let mt = match std::panic::catch_unwind(std::panic::AssertUnwindSafe(|| br.mtime())) {
+        Ok(t) => st_fmt(t),
+        Err(_) => String::from("MPANIC"),
+    };
+    let fsm = match br.metadata().modified() {
+        Ok(t) => st_fmt(t),
+        Err(_) => String::from("E"),
+    };
+    let mut out = format!(
+        "OK {} {} {} {} {} {}",
+        br.filesz(),
+        br.blockoffset_last(),
+        BlockReader::count_blocks(br.filesz(), br.blocksz()),
+        mt,
+        fsm,
+        br.count_blocks_processed()
+    );
+    for i in idx {
+        match br.read_block(i) {
+            ResultS3::Found(bp) => out.push_str(&format!(" {}:F:{}", i, hex(&bp))),
+            ResultS3::Done => out.push_str(&format!(" {}:D:", i)),
+            ResultS3::Err(_e) => out.push_str(&format!(" {}:E:", i)),
+        }
+    }
+    out
+}
+
+fn tarls(f: &[&str]) -> String {
+    use std::io::Read;
+    let path = String::from_utf8_lossy(&unhex(f[1])).to_string();
+    let mut archive = match BlockReader::open_tar(std::path::Path::new(&path)) {
+        Ok(a) => a,
+        Err(e) => return format!("ERR {}", e),
+    };
+    // f[2] == "0": archive.entries() (what process_path_tar uses), else entries_with_seek() (BlockReader)
+    let seek = !(f.len() > 2 && f[2] == "0");
+    let it = match if seek { archive.entries_with_seek() } else { archive.entries() } {
+        Ok(i) => i,
+        Err(e) => return format!("ERR {}", e),
+    };
+    let mut out = String::from("OK");
+    for (k, er) in it.enumerate() {
+        let mut e = match er {
+            Ok(e) => e,
+            Err(_) => {
+                out.push_str(&format!(" {}:ERR", k));
+                continue;
+            }
+        };
+        let ty = e.header().entry_type().as_byte();
+        let raw_ty = e.header().as_bytes()[156];
+        let esz = e.size();
+        let hsz = match e.header().size() { Ok(v) => v.to_string(), Err(_) => String::from("E") };
+        let mt = match e.header().mtime() { Ok(v) => v.to_string(), Err(_) => String::from("E") };
+        let p = match e.path() { Ok(p) => hex(p.to_string_lossy().as_bytes()), Err(_) => String::from("E") };
+        let pos = e.raw_file_position();
+        let mut data = Vec::new();
+        let dh = match e.read_to_end(&mut data) { Ok(_) => hex(&data), Err(_) => String::from("E") };
+        let _ = ty;
+        let rawp = hex(&e.path_bytes());
+        out.push_str(&format!(" {}:{}:{}:{}:{}:{}:{}:{}:{}", k, raw_ty, esz, hsz, mt, p, pos, dh, rawp));
+    }
+    out
+}
+
+fn pptar(f: &[&str]) -> String {
+    use s4lib::readers::filepreprocessor::{process_path_tar, ProcessPathResult};
+    let path = String::from_utf8_lossy(&unhex(f[1])).to_string();
+    let rs = process_path_tar(&path, true, FileTypeArchive::Normal);
+    let mut out = String::from("OK");
+    for r in rs {
+        match r {
+            ProcessPathResult::FileValid(p, _) | ProcessPathResult::FileErrNotSupported(p, _) => {
+                out.push_str(&format!(" L:{}", hex(p.as_bytes())))
+            }
+            ProcessPathResult::FileErrEmpty(p, _) => out.push_str(&format!(" E:{}", hex(p.as_bytes()))),
+            ProcessPathResult::FileErr(_, _) => out.push_str(" X"),
+            _ => out.push_str(" ?"),
+        }
+    }
+    out
+}
+
+fn ntf(f: &[&str]) -> String {
+    use s4lib::readers::filedecompressor::decompress_to_ntf;
+    let path = String::from_utf8_lossy(&unhex(f[1])).to_string();
+    let ft = if f[3] == "e" { FileType::Evtx { archival_type: fta(f[2]) } } else { FileType::Journal { archival_type: fta(f[2]) } };
+    let r = std::panic::catch_unwind(std::panic::AssertUnwindSafe(|| decompress_to_ntf(std::path::Path::new(&path), &ft)));
+    match r {
+        Err(_) => String::from("OK 0 MPANIC "),
+        Ok(Err(e)) => format!("ERR {}", e.to_string().replace('\n', " ").replace('\t', " ")),
+        Ok(Ok(None)) => String::from("OKNONE"),
+        Ok(Ok(Some((ntf, mt, sz)))) => {
+            let data = std::fs::read(ntf.path()).unwrap_or_default();
+            let m = match mt { Some(t) => st_fmt(t), None => String::from("NONE") };
+            format!("OK {} {} {}", sz, m, hex(&data))
+        }
+    }
+}
+
 fn lz4enc(f: &[&str]) -> String {
     use lz4_flex::frame::{BlockMode, BlockSize, FrameEncoder, FrameInfo};
     let inp = String::from_utf8_lossy(&unhex(f[1])).to_string();
@@ -73,6 +200,10 @@ fn main() {
         let r = std::panic::catch_unwind(std::panic::AssertUnwindSafe(|| match f[0] {
             "blocks" => blocks(&f),
             "lz4enc" => lz4enc(&f),
+            "open" => open(&f),
+            "tarls" => tarls(&f),
+            "pptar" => pptar(&f),
+            "ntf" => ntf(&f),
             _ => String::from("BADCMD"),
         }));
         match r {
